@@ -218,6 +218,10 @@ func Package(r *sim.Run, o PackOpts) (*Production, error) {
 	nextDts := make([]uint64, nTracks)
 	for i := range nextDts {
 		nextDts[i] = uint64(t.Draw(3)) * 100000
+		if t.Chance(80) {
+			// decode times around the 32-bit boundary of the version-0 tfdt
+			nextDts[i] = []uint64{1<<32 - 1024, 1<<32 - 2048, 1<<32 - 1, 1 << 32, 1<<32 + 1, 1<<32 - 3000}[t.Draw(6)]
+		}
 	}
 	// the caller's scratch table for AddSamples / AddSampleInterval batches: one backing array reused for every
 	// batch of the whole production (sub-slices of one table, overwritten for the next batch), which is legal for a
